@@ -1,6 +1,7 @@
 import KoordVerif.Model.C05
 import KoordVerif.Model.C05Prof
 import KoordVerif.Model.C05Sel
+import KoordVerif.Model.C05Ctl
 import KoordVerif.Generated.C05
 /-
 Tie lemmas for C05: guard orders and condition shapes extracted from /repo's current source
@@ -193,5 +194,31 @@ theorem tie_fast_selector :
 theorem tie_fast_selector_model (s : LabelSel) :
     getFastLabelSelector s =
       (if s.exprs.isEmpty && !s.labels.isEmpty then some { labels := s.labels, exprs := [] } else labelSelectorAsSelector s) := rfl
+
+/-- util/reservation.MatchReservationControllerReference (round 8): nil reference = true, the extended namespace field
+    first, then ANY of the pod's ownerReferences under the five-conjunct guard (any order of the conjuncts); the FLAG
+    conjunct is "spec flag nil, or pod flag non-nil AND equal" (seeded change round 6 made it "pod flag nil OR equal") -/
+theorem tie_controller_ref :
+    C05.controllerRefFrame = ["if:(#1 == nil):return true",
+        "if:((len(#1.Namespace) > 0) && (#1.Namespace != #0.Namespace)):return false",
+        "range:#0.OwnerReferences", "loop-if-guard:return true", "return:false"] ∧
+    C05.controllerRefGuard.length = 5 ∧
+    ∀ x ∈ ["((#1.Controller == nil) || (($.Controller != nil) && (*#1.Controller == *$.Controller)))",
+           "((len(#1.UID) == 0) || (#1.UID == $.UID))", "((len(#1.Name) == 0) || (#1.Name == $.Name))",
+           "((len(#1.Kind) == 0) || (#1.Kind == $.Kind))",
+           "((len(#1.APIVersion) == 0) || (#1.APIVersion == $.APIVersion))"], x ∈ C05.controllerRefGuard := by decide
+
+/-- the model is that frame and that guard -/
+theorem tie_controller_ref_model (specNs podNs : Int) (s : CtlRef) (refs : List CtlRef) :
+    matchControllerRef specNs podNs s refs =
+      (if specNs != 0 && specNs != podNs then false else refs.any (fun p =>
+        (s.flag == 0 || (p.flag != 0 && s.flag == p.flag)) && (s.uid == 0 || s.uid == p.uid) && (s.name == 0 || s.name == p.name) &&
+          (s.kind == 0 || s.kind == p.kind) && (s.api == 0 || s.api == p.api))) := rfl
+
+/-- frameworkExtenderImpl.RunReservePluginsReserve drops the pod's reservation nomination after the Reserve plugins
+    whenever a nominator is registered - NOT depending on the Reserve status (seeded change round 6: only on failure, so
+    a stale nomination is read by the pod's next Reserve); the model's Reserve always works on the cycle's own nomination -/
+theorem tie_reserve_drops_nomination :
+    C05.reserveNominationDrop = ["drop-if:(_ != nil)", "return"] := by decide
 
 end KoordVerif.C05
